@@ -91,7 +91,8 @@ fn c16_from_str_arith() {
     shim::set_symbolic_parse(true);
     // template: <n_units digits> [ "." <n_frac digits> ]; digits are placeholders ('7'), the last fraction digit is non-zero
     let n_units = [1usize, 20, 60, 78][symrt::choice(4)];
-    let n_frac = [0usize, 1, 9, 18, 19][symrt::choice(5)];
+    // 256 and 274 fraction digits: lengths at which a digit count narrowed to 8 bits reads as 0 and 18 again
+    let n_frac = [0usize, 1, 9, 18, 19, 256, 274][symrt::choice(7)];
     let mut text = "7".repeat(n_units);
     if n_frac > 0 {
         text.push('.');
@@ -112,6 +113,9 @@ fn c16_from_str_arith() {
         Ok(v) => {
             cover("accepted");
             check_bool("from_str:at_most_18_fraction_digits_accepted", n_frac <= 18);
+            if n_frac > 18 {
+                return;
+            }
             let got = v.as_atto().0;
             // units * 10^18 must not wrap
             check("from_str:accepted_units_fit", units.sle(max_units).0);
